@@ -3,7 +3,7 @@ _REAL = ['libxalan-c (rebuilt from /repo working tree, clang -O1 -DNDEBUG, ASan+
 PROP = dict(
     driver='c06', flavour='asan', level='exploration',
     technique='deterministic simulation: seeded API histories (incl. transformations aborted part-way by message/XPath/encoding/name/callback/source/resolver/sink faults) on one long-lived transformer, refinement check against a fresh-transformer reference model, address-reuse allocator, ASan/UBSan',
-    level_text='Seeded exploration of operation histories (<= 18 ops quick, <= 30 thorough) on one XalanTransformer: compile, parse, transform in several source/stylesheet/target forms with at most one abort cause, set/clear params, install/uninstall external function, output options, trace listeners, destroy handles. Oracle per transformation: status, bytes delivered to the sink (also the prefix of aborted ones) and presence of an error message equal those of a freshly created transformer given the recorded sticky settings and the same bytes and fault.',
+    level_text='Seeded exploration of operation histories (<= 18 ops quick, <= 30 thorough) on one XalanTransformer: compile, parse, transform in several source/stylesheet/target forms with at most one abort cause, set/clear params (numbers, strings, expressions, a node of a parsed source that is still alive), install/uninstall external function, output options and what the getters report about them, trace listeners, destroy handles. One run in three uses twin documents (same shape, element names rotated, white space between all tags) with last-freed-first address reuse, so that a node address recurs under another name in the next source. Oracle per transformation: status, bytes delivered to the sink (also the prefix of aborted ones) and presence of an error message equal those of a freshly created transformer given the recorded sticky settings and the same bytes and fault.',
     level_note='The reference model is the library itself on a fresh object (differential), so a defect that shows identically on fresh and reused transformers is invisible here. Allocation failure is deliberately not injected (C19 only promises a new transformer works after it). Xerces-C/ICU uninstrumented.',
     design_ref='DESIGN.md section 7 (C06), 3.1 (address reuse), 5',
     run_timeout=150,
